@@ -517,6 +517,16 @@ class Interp:
                 return base
             if isinstance(base, Sym):
                 return base  # stores into opaque symbols are visible as events only
+            if len(proj) == 1 and getattr(base, "borrowed", False) and hasattr(base, "vid") and hasattr(val, "vid") and not isinstance(val, HRef) \
+                    and getattr(base, "lo", None) is None:
+                # `*v = w` through a `&mut Vec<_>` handle of the collection model: the vector takes over w's elements
+                h = dict(self.mstate.get("heap", {}))
+                items = list(h.get(val.vid, ()))
+                if getattr(val, "lo", None) is not None:
+                    items = items[val.lo:val.hi]
+                h[base.vid] = tuple(items)
+                self.mstate["heap"] = h
+                return base
             # transparent reference to a plain value
             return self._store(env, base, proj[1:], val)
         if isinstance(e, list) and e[0] == "d":
@@ -1324,6 +1334,26 @@ def chain(*oracles):
         k = f.get("key") or ""
         nm = f.get("name")
         if f.get("_alias"):
+            return TOP
+        if k == REG + "set_value" and len(args) == 2:
+            # set_value::<T>(v) = swap through try_borrow_value_mut::<T>(): reuse the modelled answer of a sibling accessor
+            for sib, how in (("try_borrow_value_mut", "id"), ("borrow_value_mut", "ok"), ("try_borrow_value", "id"), ("borrow_value", "ok")):
+                f2 = sibling_call(f, REG + sib, sib)
+                f2["_alias"] = True
+                r2 = wrap(how, base(interp, env, f2, args[:1], t, bb, path), interp, env)
+                if isinstance(r2, Agg) and r2.name == "core::result::Result":
+                    if r2.variant != "Ok":
+                        return NONE
+                    tgt = r2.fields[0]
+                    if isinstance(tgt, Ref):
+                        oldv = interp.read_ref(env, tgt)
+                        interp.write_ref(env, tgt, args[1])
+                        return some(oldv)
+                    if isinstance(tgt, HRef):
+                        oldv = href_get(interp, env, tgt)
+                        if href_set(interp, env, tgt, args[1]):
+                            return some(oldv)
+                    return TOP
             return TOP
         tries = []       # (call description, conversion)
         if k.startswith(STATE) and nm in STATE_SUGAR:
